@@ -224,3 +224,25 @@ Proof.
   unfold bits. replace n with ((s - a) + (n - (s - a))) at 1 by lia.
   rewrite mod_div_pow2. rewrite N.div_div by apply pow2_nz. rewrite <- N.pow_add_r. reflexivity.
 Qed.
+
+(** cutting [X * 2^p + r] (with [r < 2^p]) at a position [sh >= p] *)
+Lemma cut_above X r p sh : r < 2^p -> p <= sh ->
+  (X * 2^p + r) / 2^sh = (X * 2^p) / 2^sh /\
+  (X * 2^p + r) mod 2^sh = (X * 2^p) mod 2^sh + r /\
+  N.lor r ((X * 2^p) mod 2^sh) = (X * 2^p) mod 2^sh + r.
+Proof.
+  intros Hr Hp.
+  assert (E : 2^sh = 2^p * 2^(sh - p)) by (rewrite <- N.pow_add_r; f_equal; lia).
+  rewrite E.
+  assert (D1 : (X * 2^p + r) / 2^p = X).
+  { rewrite N.div_add_l by apply pow2_nz. rewrite N.div_small by exact Hr. lia. }
+  assert (D2 : (X * 2^p) / 2^p = X) by (apply N.div_mul, pow2_nz).
+  assert (M1 : (X * 2^p + r) mod 2^p = r).
+  { rewrite N.add_comm, N.mod_add by apply pow2_nz. now apply N.mod_small. }
+  assert (M2 : (X * 2^p) mod 2^p = 0) by (apply N.mod_mul, pow2_nz).
+  repeat split.
+  - rewrite <- !N.div_div by apply pow2_nz. now rewrite D1, D2.
+  - rewrite !N.mod_mul_r by apply pow2_nz. rewrite D1, D2, M1, M2. lia.
+  - rewrite N.mod_mul_r by apply pow2_nz. rewrite D2, M2, N.add_0_l.
+    rewrite N.lor_comm, (N.mul_comm (2^p)). now apply lor_disjoint_add.
+Qed.
